@@ -78,6 +78,7 @@ deriving Repr, DecidableEq
 inductive MPc
   | none | start
   | addAcq (w : Wid) | addTStart (w : Wid)
+  | addAcqF (w : Wid) | addTStartF (w : Wid)                  -- the same, in the pass made right after flagging the executor as shutting down
   | wait (snap : List Pid)
   | recv
   | clrPoll (k : AfterClear) | clrRecv (k : AfterClear)
@@ -299,12 +300,26 @@ def mAliveNext (s : St) (ps : List Pid) (cnt n sent cool : Nat) : St :=
 def mAfterPut (s : St) (k n sent cool : Nat) : St :=
   if k ≤ 1 then mJoinLoop s n (sent + 1) cool else { s with mpc := .jPut (k - 1) n (sent + 1) cool }
 
+/-- what follows the pass of `add_call_item_to_queue` that the manager makes right after
+    `flag_executor_shutting_down` when work items are pending (so that a table holding only cancelled futures is
+    emptied before the thread waits again): still inside the pass at the blocking `acquire` of a call-queue slot;
+    at its end the `if not pending_work_items` test — `join_executor_internals` when the table is empty, otherwise
+    the loop starts over: its first statement, another pass, finds the call queue still full or the id queue still
+    empty, and the thread announces `wait`. -/
+def mAfterAddF (s : St) : St :=
+  match s.mpc with
+  | .addAcq i => { s with mpc := .addAcqF i }
+  | .wait _ => if s.pending = [] then mJoinStart s else s
+  | _ => s
+
+def mAddF (s : St) : St := mAfterAddF (mAdd s)
+
 /-- `flag_executor_shutting_down` after its lock section, then the end of the loop body -/
 def mAfterFlag (s : St) : St :=
   if s.killFlag then
     mKillNext (failAll { s with pending := [] } s.pending .excShutdown)
   else if s.pending = [] then mJoinStart s
-  else mAdd s
+  else mAddF s
 
 /-! ### feeder, user and worker continuations -/
 
@@ -467,6 +482,11 @@ def stepM (s : St) (v : Variant) : Option St :=
       if s.fpc = .none then { s with mpc := .addTStart i }
       else mAdd { s with cqBuf := s.cqBuf ++ [.call i (s.taskOf.getD i 0)] }
   | .addTStart i, .ok => some (mAdd { s with fpc := .start, cqBuf := s.cqBuf ++ [.call i (s.taskOf.getD i 0)] })
+  | .addAcqF i, .ok => (acq s.cqSem).map fun x =>
+      let s := { s with cqSem := x }
+      if s.fpc = .none then { s with mpc := .addTStartF i }
+      else mAddF { s with cqBuf := s.cqBuf ++ [.call i (s.taskOf.getD i 0)] }
+  | .addTStartF i, .ok => some (mAddF { s with fpc := .start, cqBuf := s.cqBuf ++ [.call i (s.taskOf.getD i 0)] })
   | .wait snap, .ok =>
       if s.rqPipe ≠ [] then some { s with mpc := .recv }
       else if s.wakeup > 0 then some { s with mpc := .clrPoll (.item none) }
